@@ -46,6 +46,9 @@ pub(crate) struct ZmtpSmartConnection {
   /// External-op id for the `ShutdownConnectionHandler` request sent by `close_connection`
   /// (the id the registration request used; that operation is complete by then).
   shutdown_user_data: UserData,
+  /// Set by `close_connection()`: the socket itself asked for this connection to go away
+  /// (disconnect(), close()), so losing it is not a reason to reconnect.
+  closed_by_owner: AtomicBool,
 }
 
 impl std::fmt::Debug for ZmtpSmartConnection {
@@ -75,7 +78,12 @@ impl ZmtpSmartConnection {
       work_signal_gen,
       sndtimeo,
       shutdown_user_data,
+      closed_by_owner: AtomicBool::new(false),
     }
+  }
+
+  pub(crate) fn closed_by_owner(&self) -> bool {
+    self.closed_by_owner.load(Ordering::Acquire)
   }
 
   fn signal_worker(&self) {
@@ -176,6 +184,7 @@ impl ISocketConnection for ZmtpSmartConnection {
     if self.egress_tx.is_closed() {
       return Ok(());
     }
+    self.closed_by_owner.store(true, Ordering::Release);
     let (reply_tx, reply_rx) = fibre::oneshot::oneshot();
     let req = UringOpRequest::ShutdownConnectionHandler {
       user_data: self.shutdown_user_data,
